@@ -184,7 +184,43 @@ def gen_table(spec):
     df = pd.DataFrame(cols)
     if pattern == 'dup' and d >= 2:
         df[names[-1]] = df[names[0]].to_numpy() * 2.0 + 1.0
-    return df, R
+    return decorate_index(df, spec.get('index', 'range')), R
+
+
+INDEX_KINDS = ['shifted', 'labels', 'reversed', 'filtered', 'samelabel']
+
+
+def decorate_index(df, kind):
+    """The training frame as a caller really has it: rows filtered out of a larger frame, an
+    index that does not start at 0, string labels, descending labels, or one label repeated.
+    The row VALUES and their order are untouched, so every law about the rows still applies;
+    code that mixes up labels and positions does not survive it."""
+    if kind in (None, 'range'):
+        return df
+    n = len(df)
+    if kind == 'shifted':
+        df.index = np.arange(n) + 1000
+    elif kind == 'labels':
+        df.index = ['row%d' % i for i in range(n)]
+    elif kind == 'reversed':
+        df.index = np.arange(n)[::-1]
+    elif kind == 'filtered':
+        df.index = np.arange(n) * 3 + 1
+    elif kind == 'samelabel':
+        df.index = np.zeros(n, dtype=int)
+    else:
+        raise ValueError(kind)
+    return df
+
+
+def with_index(spec):
+    """Give a table spec an index kind, derived from the spec's own seed (the run generator's
+    PRNG is not consulted, so the rest of the generated population is unchanged)."""
+    from copsim.core import derive_seed
+    h = derive_seed('index', spec['seed'], spec['n'])
+    if h % 100 < 35:
+        spec['index'] = INDEX_KINDS[(h // 100) % len(INDEX_KINDS)]
+    return spec
 
 
 def gen_pseudo_obs(spec):
@@ -315,8 +351,9 @@ def rand_table_spec(rng, d_lo=2, d_hi=4, n_lo=40, n_hi=80, margs=None, constant_
                   else rng.choice(pool))
     if all(m.startswith('constant') for m in ms):
         ms[0] = 'normal'
-    return {'kind': 'table', 'n': rng.randint(n_lo, n_hi), 'seed': rng.randrange(2**31),
-            'margs': ms, 'pattern': rng.choice(list(patterns))}
+    return with_index({'kind': 'table', 'n': rng.randint(n_lo, n_hi),
+                       'seed': rng.randrange(2**31), 'margs': ms,
+                       'pattern': rng.choice(list(patterns))})
 
 
 def clone(obj):
